@@ -3,6 +3,7 @@ package liquid
 // C12 — assign/capture bind for the rest of the render; loop variables are restored.
 
 import (
+	"math"
 	nd "github.com/osteele/liquid/zz_verifnd"
 )
 
@@ -135,4 +136,54 @@ func VerifC12Equiv() {
 	nd.Assert(e1 == nil && e2 == nil, "equiv-no-error")
 	nd.Assert(o1 == o2, "capture-equivalence")
 	nd.Reach("C12.equiv")
+}
+
+// VerifC12Exact: the variable holds exactly the assigned value — same Go type, same value — for
+// every kind of value: observed through filters that distinguish types (type, json, divided_by,
+// which divides integers and floats differently) by comparing the assigned variable with the
+// original binding.
+func VerifC12Exact() {
+	var v any
+	kind := nd.Choice(12)
+	switch kind {
+	case 0:
+		v = 2.0
+	case 1:
+		v = math.Copysign(0, -1)
+	case 2:
+		v = float32(3)
+	case 3:
+		v = int8(5)
+	case 4:
+		v = uint64(1 << 63)
+	case 5:
+		v = "2"
+	case 6:
+		v = []any{1, 2.0}
+	case 7:
+		v = map[string]any{"k": 2.0}
+	case 8:
+		v = nil
+	case 9:
+		v = true
+	case 10:
+		v = nd.Float64() // any float, whole or not, NaN and infinities included: the type is kept
+	case 11:
+		v = []int{4}
+	}
+	probe := func(name string) string {
+		return "{{ " + name + " | type }}|{{ 7 | divided_by: " + name + " }}|{{ " + name + " | json }}|{{ " + name + ".k | type }}{{ " + name + "[1] | type }}"
+	}
+	typeOnly := nd.Choice(2) == 1
+	if kind == 10 || typeOnly {
+		probe = func(name string) string { return "{{ " + name + " | type }}" }
+	}
+	src := "{% assign a = v %}{% assign b = a %}{% capture c %}{% assign d = b %}{% endcapture %}" + probe("d") + "#" + probe("v")
+	out, err := vRender(src, Bindings{"v": v})
+	direct, derr := vRender(probe("v")+"#"+probe("v"), Bindings{"v": v})
+	nd.Assert((err == nil) == (derr == nil), "assigned-fails-like-original")
+	if err == nil && derr == nil {
+		nd.Assert(out == direct, "assigned-value-exact")
+	}
+	nd.Reach("C12.exact")
 }
